@@ -444,6 +444,9 @@ func (x *Exec) step(s *State, fr *Frame, in ssa.Instruction) bool {
 		ref := x.allocRef(s)
 		m := types.Unalias(i.Type()).Underlying().(*types.Map)
 		x.heapWrite(s, ref, i.Type(), x.w.Reg.Apply("empty:"+sliceBase(x.w.mapValSort(m))))
+		if h := x.w.HolderType(i.Type()); h != nil {
+			x.heapWrite(s, ref, h, x.w.ZeroTerm(h)) // ghost view of a new, empty map
+		}
 		fr.vals[i] = Value{T: i.Type(), Term: ref}
 	case *ssa.MakeSlice:
 		ln := x.val(s, fr, i.Len)
@@ -1236,8 +1239,8 @@ func (x *Exec) doLookup(s *State, fr *Frame, i *ssa.Lookup) {
 	mv := sliceBase(x.w.mapValSort(mt))
 	content := x.heapRead(s, m.Term, i.X.Type())
 	isNil := Eq(m.Term, IntT(0))
-	has := And(Not(isNil), x.w.Reg.Apply("has:"+mv, content, k.Term))
-	val := Ite(has, x.w.Reg.Apply("get:"+mv, content, k.Term), x.w.ZeroTerm(mt.Elem()))
+	has := And(Not(isNil), x.w.MapHas(mv, content, k.Term))
+	val := Ite(has, x.w.MapGet(mv, content, k.Term), x.w.ZeroTerm(mt.Elem()))
 	if i.CommaOk {
 		fr.vals[i] = Value{T: i.Type(), Tup: []Value{{T: mt.Elem(), Term: val}, {T: types.Typ[types.Bool], Term: has}}}
 	} else {
